@@ -254,14 +254,18 @@ def search(ctx, res, problems):
 
 
 import props as _props  # noqa: E402  (COMMON_TB)
+import sys as _sys  # noqa: E402
+_sys.path.insert(0, os.path.dirname(os.path.abspath(__file__)))
+import _prng_common as _pc  # noqa: E402
 
 PROP = {
-    "streams": streams, "search": search,
+    "streams": streams, "search": search, "translators": _pc.translators_prng,
     "rule": "lib/prng/randombytes.cpp linked with --wrap=open,read,sleep; every script of OS answers is played to the real code in a forked child (static fd = -1 at start; multi-call sequences share it) and to the Lean model; compared: full call log (call, arguments incl. pointer offset and request size, answer), buffer (every byte, -1 = never written), number of answers consumed; scripts the code is still looping on when they end are compared too (it must not have returned). Bounded-exhaustive over {open fails, read -1, 0, 1, half, all} (and {…, count-1, all} for sizes 2 and 32); the value returned by the successful open is a dimension of its own: {0, 1, 2, 3, 255, 256, 1023, 1024, 32767, 32768, 65535, 65536, INT_MAX} x sequences of calls x 0/1 (thorough: 2) failed opens before it x every script of <= 2 (3) read outcomes and 9 fault patterns followed by enough full reads for all calls to return — reads must be issued on exactly that descriptor and no second open may happen; requests above 1 MiB (2^20+5, 2^21+3; thorough also 2^20+1, 2^20+2, 3·2^20): short reads that leave the pointer at a multiple of the chunk, one before, one after, and that leave chunk-1 / chunk / chunk+1 bytes wanted, then nothing / read -1 / read 0 / read 1, then full reads, a second small call after it; + seeded random scripts (random short counts, explicit random bytes, leftovers, 1-4 calls). The ERROR CODE of every failing answer is part of the script (`8 e` on the op line, stored in errno by the wrapper just before it returns -1): open: ENOENT/EACCES/EMFILE/ENFILE/EINTR, read: EINTR/EAGAIN/EIO/EBADF/EFAULT/EISDIR/EINVAL; the first failing read of every enumerated script gets the errno (hash(shape)+seed) mod 7 and, for shapes one outcome below the bound of the family (thorough: up to the bound), every one of the 7; on every descriptor value every fault pattern with a failing read once per read errno, the plain pattern after failed opens once per open errno; later failures, stale errno on read = 0, the result of sleep (0 / 1 = interrupted) from the same hash; random scripts draw all of them at random, also a stale errno on answers >= 0. The model (runCallsA) and the specification forget errno and the sleep result: any dependence of the code on them is a difference. Specification: successful opens <= 1 per process history, reads only on the opened descriptor (SPECFAIL entries carry a `violation` text). distinct = distinct script lines; none is trivial",
     "trusted_base": _props.COMMON_TB + [
         "OS contract (stated in Model/RandomBytes.lean, not verified): open returns -1 (errno set) or a descriptor >= 0; read(fd,p,n) returns -1 (errno set, nothing stored), 0 or 1<=k<=n after storing exactly k bytes at p; sleep returns 0 or the unslept seconds",
         "ld --wrap redirects exactly the open/read/sleep references of randombytes.o to the harness (checked indirectly: every call appears in the compared log; an unwrapped call would read the real /dev/urandom and the buffer comparison would fail)",
         "fork(): each script starts from the initial value of the file-static descriptor",
+        _pc.PRNG_AST_TB,
     ],
     "assumptions": ["a failing read stores nothing in the buffer (an environment scribbling into it before returning -1 is not played); no real signal is delivered (EINTR / the interrupted sleep are only the values returned); open never returns a descriptor already in use",
                     "request sizes < 2^31 (the `int i` conversions of the code are exact; requests are capped at 2^20)",
